@@ -20,7 +20,7 @@ use std::process::{Command, Stdio};
 use std::sync::atomic::{AtomicUsize, Ordering};
 use std::sync::{Arc, Mutex};
 
-pub const FAMILIES: [&str; 75] = [
+pub const FAMILIES: [&str; 79] = [
     "block-literal-lines",
     "block-folded-long-lines",
     "block-wide-indent",
@@ -74,6 +74,10 @@ pub const FAMILIES: [&str; 75] = [
     "deep-nest-many-anchored",
     "deep-nest-many-tagged",
     "deep-nest-many-map-entries",
+    "deep-nest-tab-run",
+    "deep-nest-blank-run",
+    "deep-nest-blank-lines",
+    "deep-nest-comment-lines",
     "big-anchor-document-then-many-documents",
     "big-tag-document-then-many-documents",
     "distinct-tag-handle-per-document",
@@ -399,6 +403,26 @@ pub fn render(family: &str, bytes: usize) -> String {
                 s.push_str("  - a\n");
             }
             s.push_str(": v\n");
+        }
+        "deep-nest-tab-run" | "deep-nest-blank-run" | "deep-nest-blank-lines" | "deep-nest-comment-lines" => {
+            // a deep nest, then a long run of separation: whatever the scanner asks itself per
+            // blank, TAB, empty line or comment must not depend on the nesting depth
+            let depth = (bytes / 8).min(16_384);
+            s.push_str("- ");
+            for _ in 0..depth {
+                s.push_str("- ");
+            }
+            s.push_str("&a");
+            let unit = match family {
+                "deep-nest-tab-run" => "\t",
+                "deep-nest-blank-run" => " ",
+                "deep-nest-blank-lines" => "\n",
+                _ => "\n# c",
+            };
+            while s.len() < bytes {
+                s.push_str(unit);
+            }
+            s.push_str(if family == "deep-nest-tab-run" || family == "deep-nest-blank-run" { " b\n" } else { "\n" });
         }
         "deep-nest-many-aliases" | "deep-nest-many-scalars" | "deep-nest-many-anchored" | "deep-nest-many-tagged" | "deep-nest-many-map-entries" => {
             // depth and leaf count both grow with the size: per-leaf work that depends on the
